@@ -466,6 +466,7 @@ func controlled(r *hx.Run, rnd *hx.Rand, sc *scenario, lim int, injectCancel boo
 	verifhook.Install(c.hook)
 	defer verifhook.Install(nil)
 	before := runtime.NumGoroutine()
+	inflight(fmt.Sprintf("controlled-schedule lim=%d scenario=[%s]", lim, strings.Join(sc.lines("")[1:], " | ")))
 	r.Op("reset", "ok", false)
 	r.Op(fmt.Sprintf("p-init %d %d", lim, p.n), "ok", false)
 	r.Count(fmt.Sprintf("proto:lim=%d", lim))
@@ -513,11 +514,21 @@ func controlled(r *hx.Run, rnd *hx.Rand, sc *scenario, lim int, injectCancel boo
 		return fmt.Sprintf("lim=%d scenario=[%s] schedule=[%s]", lim, strings.Join(sc.lines("")[1:], " | "), strings.Join(p.trace, "; "))
 	}
 	if !ok {
+		// The implementation did not make a step the machine allows (or made
+		// none at all). Let everything run freely: if the call then returns,
+		// this is a disagreement between machine and code (reported on the
+		// protocol stream); if it does not, the call hangs.
 		close(c.abort)
-		r.Fail("", "controlled-schedule: "+p.failure+" "+witness())
+		hangs.Add(1)
 		select {
-		case <-done:
+		case res := <-done:
+			r.Op("p-stuck", "the implementation did not perform a step the machine expects: "+p.failure, true)
+			r.Count("proto:stuck-then-completed-freely")
+			for _, f := range oracle(w, res) {
+				r.Fail(f[0], "controlled-schedule (released after a stuck step): "+f[1]+" "+witness())
+			}
 		case <-time.After(callTimeout):
+			r.Fail("", "controlled-schedule: "+p.failure+"; the call did not return even after all goroutines were released "+witness())
 		}
 		return
 	}
@@ -548,11 +559,7 @@ func controlled(r *hx.Run, rnd *hx.Rand, sc *scenario, lim int, injectCancel boo
 	if p.cancelBeforeEnd && res.err == nil {
 		r.Fail("", "controlled-schedule: the caller cancelled before mg.Wait returned, yet a report came back without error "+witness())
 	}
-	if !p.parentCancelled {
-		for _, f := range oracle(w, res) {
-			r.Fail(f[0], "controlled-schedule: "+f[1]+" "+witness())
-		}
-	} else if res.leak > 0 {
-		r.Fail("", fmt.Sprintf("controlled-schedule: goroutines-leaked n=%d %s", res.leak, witness()))
+	for _, f := range oracle(w, res) {
+		r.Fail(f[0], "controlled-schedule: "+f[1]+" "+witness())
 	}
 }
